@@ -21,19 +21,28 @@ func main() {
 	steps := fs.Int("steps", 150, "operations per history")
 	in := fs.String("in", "", "input file (replay)")
 	gen := fs.Bool("genesis", false, "finish every random history with zero-height preparation, export and re-import")
+	rev := fs.Bool("reverse", false, "run the histories in the opposite order (determinism: nothing may carry over from one to the next)")
 	fs.Parse(os.Args[2:])
 
 	switch cmd {
 	case "scripted":
 		rec := NewRecorder(*out)
-		for _, h := range Scenarios() {
-			RunHistory(rec, h)
+		hs := Scenarios()
+		for i := range hs {
+			if *rev {
+				i = len(hs) - 1 - i
+			}
+			RunHistory(rec, hs[i])
 		}
 		rec.Close()
 		report(rec)
 	case "random":
 		rec := NewRecorder(*out)
-		for i := 0; i < *n; i++ {
+		for k := 0; k < *n; k++ {
+			i := k
+			if *rev {
+				i = *n - 1 - k
+			}
 			g := NewGen(*seed*1000003 + int64(i))
 			c := StartHistory(rec, g.Reset(fmt.Sprintf("random-%d-%d", *seed, i)))
 			for s := 0; s < *steps; s++ {
@@ -85,8 +94,11 @@ func main() {
 			os.Exit(2)
 		}
 		rec := NewRecorder(*out)
-		for _, h := range hs {
-			RunHistory(rec, h)
+		for i := range hs {
+			if *rev {
+				i = len(hs) - 1 - i
+			}
+			RunHistory(rec, hs[i])
 		}
 		rec.Close()
 		report(rec)
